@@ -64,19 +64,21 @@ Functional(e, a) == a.ns \in {"", "xml", "xlink"} /\ ~Droppable(e, a)
 
 ---------------------------------------------------------------------------
 (* Strip: the document without what may disappear; adjacent character data merged.  *)
-Strip(evs) ==
+(* css: the CSS minifier is registered; the character data of a `style` element is then a style sheet
+   rewritten by that minifier - what it may do is property C04, here it is left out of the tree. *)
+Strip(evs, css) ==
   FoldLeft(LAMBDA a, e :
       IF e.t = "s" THEN
          IF a.skip > 0 THEN [a EXCEPT !.skip = @ + 1]
          ELSE IF DeletableElement(e) THEN [a EXCEPT !.skip = 1]
-         ELSE [a EXCEPT !.o = Append(@, e)]
+         ELSE [a EXCEPT !.o = Append(@, e), !.sty = (css /\ SvgLike(e.ns) /\ e.name = "style")]
       ELSE IF e.t = "e" THEN
-         IF a.skip > 0 THEN [a EXCEPT !.skip = @ - 1] ELSE [a EXCEPT !.o = Append(@, e)]
-      ELSE IF a.skip > 0 THEN a
+         IF a.skip > 0 THEN [a EXCEPT !.skip = @ - 1] ELSE [a EXCEPT !.o = Append(@, e), !.sty = FALSE]
+      ELSE IF a.skip > 0 \/ a.sty THEN a
       ELSE IF a.o # <<>> /\ a.o[Len(a.o)].t = "x"
            THEN [a EXCEPT !.o[Len(a.o)].txt = @ \o e.txt]
            ELSE [a EXCEPT !.o = Append(@, e)],
-    [skip |-> 0, o |-> <<>>], evs).o
+    [skip |-> 0, sty |-> FALSE, o |-> <<>>], evs).o
 
 (* Tree: the element tree with character data reduced to its non-blank characters
    (blank-only character data is layout between tags; which blanks are significant for
@@ -292,6 +294,12 @@ MediaTypeEq(a, b) == Lower(NoWs(a)) = Lower(NoWs(b))
 \* "viewBox ... keeps its value": a viewBox value is a list of numbers; about anything else nothing is claimed
 IsNumberList(v) == LET x == Items(v) IN x # <<>> /\ \A i \in 1..Len(x) : IsNumber(x[i])
 
+(* "style value keeps its value": the style attribute is a list of declarations (split by the reader,
+   names lower-cased); each keeps its name and its value, where a value may be respelled as a
+   length/number or as a colour like an attribute value. *)
+DeclOK(x, y) == x.name = y.name /\ (WsEq(x.val, y.val) \/ DimEq(x.val, y.val) \/ ColourEq(x, y))
+StyleEq(a, b) == Len(a.decls) = Len(b.decls) /\ \A i \in 1..Len(a.decls) : DeclOK(a.decls[i], b.decls[i])
+
 ValueOK(a, b) ==
   \/ WsEq(a.val, b.val)
   \/ /\ a.ns = ""
@@ -299,6 +307,7 @@ ValueOK(a, b) ==
         \/ (a.name \in ColourAttrs /\ ColourEq(a, b))
         \/ (a.name \in {"viewBox", "viewbox"} /\ (~IsNumberList(a.val) \/ NumListEq(a.val, b.val)))
         \/ (a.name \in MediaTypeAttrs /\ MediaTypeEq(a.val, b.val))
+        \/ (a.name = "style" /\ StyleEq(a, b))
         \/ (a.name \notin StringAttrs /\ a.name \notin ColourAttrs /\ a.name \notin MediaTypeAttrs
             /\ a.name # "style" /\ DimEq(a.val, b.val))
 
